@@ -1,6 +1,7 @@
 package props
 
 import (
+	"errors"
 	"context"
 	"encoding/base64"
 	"fmt"
@@ -605,8 +606,32 @@ func (e *Eng) actRevoke() {
 	}
 	state, _ := e.effective(c)
 	stored := c.Exp // ignoring time: is the record still live in the store?
+	// now and then one of the two revoking writes fails (lost connection): the endpoint may answer an error, but if it
+	// *accepts* the request the statement's consequence must hold all the same
+	faultAt := ""
+	if mode == "owner" && e.cfg.Prop == "C08" && rapid.IntRange(0, 7).Draw(t, "revokeWriteFails") == 0 {
+		faultAt = pick(t, []string{"RevokeRefreshToken", "RevokeAccessToken"}, "failingWrite")
+		e.w.W.Before = func(c *h.Call) error {
+			if c.Method == faultAt {
+				return errors.New("connection reset by peer")
+			}
+			return nil
+		}
+		e.label("revoke-with-failing-write")
+	}
 	res := e.w.Revoke(e.form(caller, form), auth)
+	e.w.W.Before = nil
 	e.step(fmt.Sprintf("revoke:%s:%s:%s", mode, c.Kind, state))
+	if faultAt != "" {
+		e.logf("revoke %v by=%s hint=%q with %s failing -> %v http=%d", c, caller, hint, faultAt, res.Err, res.Status)
+		if !res.Err.OK() {
+			// refused: what the half-done revocation left behind is unspecified
+			e.unspecFamily(g, "revocation-with-failing-write")
+			e.invariant("")
+			return
+		}
+		// accepted: the same consequences as a fault-free revocation (below)
+	}
 	e.logf("revoke %v by=%s(%s) hint=%q state=%v -> %v http=%d", c, caller, mode, hint, state, res.Err, res.Status)
 	switch mode {
 	case "badauth":
